@@ -58,13 +58,15 @@ TEXT = {
             "that outlives its creator writes a captured variable; no package-level variable written outside init). "
             "The real code is run under the race detector on a grid N x GOMAXPROCS with shared engine/templates/bindings; "
             "oracle: no race report and every concurrent result equals the sequential one.",
-    "design_ref": "DESIGN.md 6 C04, 4.8, 5.3 (T3), 7 (D10)",
+    "design_ref": "DESIGN.md 6 C04, 4 (Conc.lean in the table of model files), 3.3 and 5.4 (T3), 7.1 (12fa2bb; D10 in A.5)",
     "note": NOTE + "The race-detector rounds sample schedules (and with GOMAXPROCS=1 incidental sync.Pool edges hide many "
             "races); the all-schedules statement is about the abstract machine under the assumed premise WritesOwned/"
             "ReadsVisible; the T3 obligation checks only that no store goes through a captured or package-level variable (its "
             "escape test is an over-approximation for closures but does not follow writes through receivers and pointer "
             "parameters), and nothing static stands for ReadsVisible. The model side of "
             "the `conc` stream is the constant verdict `ok`.",
-    "technique": "Lean 4 proof (invariant preserved by every step, induction on the schedule) + go/ssa fact extraction checked by "
-                 "`decide` + race-detector differential runs (concurrent vs sequential)",
+    "technique": "Lean 4 proof about the interleaving model (invariant preserved by every step, induction on the schedule) + source facts "
+                 "re-extracted by translator T3 (go/ssa) on every run and checked by `decide` (no_shared_writes, global_calls_audited: a "
+                 "necessary condition of the ownership premise, which the theorems assume) + race-detector differential runs (concurrent vs "
+                 "sequential) on the implementation",
 }
